@@ -23,8 +23,9 @@ import (
 type traceRule interface {
 	// step consumes one event in automaton state q and returns the next state. It reports violations itself.
 	step(tc *traceClient, x *core.TSCtx, site ssa.Instruction, q, ev string) string
-	// ret is called for every return of the root function and of summarised callees (depth = len(x.Stack)).
-	ret(tc *traceClient, x *core.TSCtx, r *ssa.Return, q string, err core.ErrK)
+	// ret is called for every return of the root function and of summarised callees (depth = len(x.Stack));
+	// it returns the automaton state handed back to the caller.
+	ret(tc *traceClient, x *core.TSCtx, r *ssa.Return, q string, err core.ErrK) string
 }
 
 type traceClient struct {
@@ -71,6 +72,9 @@ func callbackName(ci ssa.CallInstruction) string {
 	}
 	if _, ok := cc.Value.(*ssa.Builtin); ok {
 		return ""
+	}
+	if core.IsNamed(cc.Value.Type(), "context", "CancelFunc") {
+		return "" // the cancel function of a derived context is not a user callback
 	}
 	if fr, ok := core.FieldOfValue(cc.Value); ok && fr.Struct != nil && fr.Struct.Obj().Pkg() != nil && fr.Struct.Obj().Pkg().Path() == pkWire {
 		switch fr.Struct.Obj().Name() + "." + fr.Name {
@@ -202,9 +206,9 @@ func (tc *traceClient) Call(x *core.TSCtx, site ssa.CallInstruction, s string) (
 	return nil, false
 }
 
-func (tc *traceClient) Return(x *core.TSCtx, r *ssa.Return, s string, err core.ErrK) {
-	_, q := splitState(s)
-	tc.rule.ret(tc, x, r, q, err)
+func (tc *traceClient) Return(x *core.TSCtx, r *ssa.Return, s string, err core.ErrK) string {
+	open, q := splitState(s)
+	return joinState(open, tc.rule.ret(tc, x, r, q, err))
 }
 
 func (tc *traceClient) Edge(x *core.TSCtx, from, to *ssa.BasicBlock, s string) string { return s }
